@@ -20,7 +20,16 @@ AUTH_TB = ["models Model/CipherList.lean, Model/Auth.lean of service/cipher_list
 LOCK_TB = ["Gen/LockFacts.lean: typed lock-set / lock-order / critical-section analysis of the working tree (extract/locks.go, go/packages); the extractor is trusted and cross-checked by the concurrent campaigns",
            "generic theorems Model/Locks.lean (ranked acquisition never deadlocks), Go memory model (mutex release/acquire) as contract"]
 
+TCP_TB = ["model Model/TCP.lean of streamHandler.Handle/handleConnection/proxyConnection/absorbProbe (service/tcp.go), Model/Auth.lean, Model/SSStream.lean (outline-sdk framing) tied by the `tcp` differential campaign: real handler behind StreamServe on loopback in a private netns, default dialer, scripted clients (spec-level crypto) and targets",
+          "Gen/Wiring.lean, Gen/Consts.lean, Gen/PrivateNets.lean regenerated from source"]
+TCP_AS = ["kernel TCP semantics (FIN vs RST, half-close, loopback ordering) and wall-clock timing are observed with tolerances, not proved",
+          "AEAD contract: open(seal(n,p)) = some p; a block sealed under one key opens under no other"]
+TCP_CAMP = dict(engine="tcp", n=n(25, 500), netns=True)
+
 CHECKS = {
+    "C02": dict(level="proof", campaigns=[TCP_CAMP], trusted_base=TCP_TB, assumptions=TCP_AS),
+    "C06": dict(level="proof", campaigns=[TCP_CAMP], trusted_base=TCP_TB, assumptions=TCP_AS),
+    "C15": dict(level="proof", campaigns=[TCP_CAMP], trusted_base=TCP_TB, assumptions=TCP_AS + ["a handler panic would skip AddClosed: conditional on C18"]),
     "C13": dict(
         level="proof",
         campaigns=[dict(engine="lockstress", n=n(60, 1500), netns=True)],
@@ -35,14 +44,14 @@ CHECKS = {
     ),
     "C01": dict(
         level="proof",
-        campaigns=[dict(engine="tcpauth", n=n(600, 12000)), dict(engine="conc", n=n(15, 300))],
+        campaigns=[dict(engine="tcpauth", n=n(600, 12000)), dict(engine="conc", n=n(15, 300)), dict(engine="tcp", n=n(15, 300), netns=True)],
         trusted_base=AUTH_TB,
         assumptions=["KeySeparation (a stream sealed under one (cipher, secret) opens under no other) is an explicit hypothesis where attribution to 'exactly that key' is claimed",
                      "each cipherList method is one critical section (C19 lock-set facts), so concurrent use is an interleaving of the modelled ops"],
     ),
     "C08": dict(
         level="proof",
-        campaigns=[dict(engine="tcpauth", n=n(600, 12000))],
+        campaigns=[dict(engine="tcpauth", n=n(600, 12000)), dict(engine="tcp", n=n(15, 300), netns=True)],
         trusted_base=AUTH_TB,
         assumptions=["HMAC-SHA1 is a parameter of the theorems; RNG freshness of the salt prefix is a contract (pairwise distinctness is checked empirically)"],
     ),
@@ -70,7 +79,7 @@ CHECKS = {
     ),
     "C05": dict(
         level="proof",
-        campaigns=[dict(engine="ip", n=n(100000, 5000000)), dict(engine="udp", n=n(150, 3000), netns=True)],
+        campaigns=[dict(engine="ip", n=n(100000, 5000000)), dict(engine="udp", n=n(150, 3000), netns=True), dict(engine="tcp", n=n(15, 300), netns=True)],
         trusted_base=["model Model/IP.lean of net.IP predicates (Go toolchain) and net/private_net.go, tied by the `ip` differential campaign",
                       "Gen/PrivateNets.lean regenerated from the CIDR literals of net/private_net.go"],
         assumptions=["hostname resolution is an oracle (cannot be exercised offline): the theorems quantify over every resolver answer",
